@@ -6,6 +6,7 @@
 -/
 import Driver.MeshIO
 import PolyVerif.Gen.Transform
+import PolyVerif.Model.MeshTransforms
 
 namespace Driver.MeshIO
 open PolyVerif PolyVerif.Mesh PolyVerif.Gen
@@ -19,16 +20,8 @@ def firstLt (thr : Float) : P → Bool
   | a :: _ => a < thr
   | [] => false
 
-def v3? : P → Option (V3 Float)
-  | [a, b, c] => some ⟨a, b, c⟩
-  | _ => none
-def ofV3 (v : V3 Float) : P := [v.x, v.y, v.z]
-
-/-- lift a V3 map to payloads (a payload of another width is left alone; cannot happen for width-3 keys) -/
-def liftV3 (f : V3 Float → V3 Float) (p : P) : P :=
-  match v3? p with
-  | some v => ofV3 (f v)
-  | none => p
+/-- Go's `-math.MaxFloat64` -/
+def negMaxFloat : Float := Float.ofBits 0xffefffffffffffff
 
 def pV3 : Parser (V3 Float) := fun ts => do
   let (a, ts) ← pFloat ts
@@ -92,32 +85,46 @@ def applyOp (op : String) (ts : List String) : Option (Option (List MV)) :=
       let (name, ts) ← pTok ts
       let (t, ts) ← pV3 ts
       let (m, _) ← pMesh ts
-      oneO (m.mapAttr ⟨3, name⟩ (liftV3 fun v => v.Add t))
+      oneO (m.translate name t)
   | "scale" => do
       let (name, ts) ← pTok ts
       let (o, ts) ← pV3 ts
       let (a, ts) ← pV3 ts
       let (m, _) ← pMesh ts
-      oneO (m.mapAttr ⟨3, name⟩ (liftV3 fun v => o.Add ((v.Sub o).MultByVector a)))
+      oneO (m.scaleAbout name o a)
   | "meshscale" => do
       let (a, ts) ← pV3 ts
       let (m, _) ← pMesh ts
-      oneO (m.mapAttr ⟨3, "Position"⟩ (liftV3 fun v => v.MultByVector a))
+      oneO (m.scaleMesh a)
   | "rotate" => do
       let (name, ts) ← pTok ts
       let (qv, ts) ← pV3 ts
       let (qw, ts) ← pFloat ts
       let (m, _) ← pMesh ts
-      let q : quaternion.Quaternion Float := ⟨qv, qw⟩
-      oneO (m.mapAttr ⟨3, name⟩ (liftV3 fun v => q.Rotate v))
+      oneO (m.rotate name ⟨qv, qw⟩)
   | "applytrs" => do
       let (p, ts) ← pV3 ts
       let (qv, ts) ← pV3 ts
       let (qw, ts) ← pFloat ts
       let (s, ts) ← pV3 ts
       let (m, _) ← pMesh ts
-      let t := trs.New p ⟨qv, qw⟩ s
-      oneO (m.mapAttr ⟨3, "Position"⟩ (liftV3 fun v => t.Transform v))
+      oneO (m.applyTRS (trs.New p ⟨qv, qw⟩ s))
+  | "center" => do
+      let (name, ts) ← pTok ts
+      let (m, _) ← pMesh ts
+      oneO (m.center name)
+  | "normalize" => do
+      let (name, ts) ← pTok ts
+      let (m, _) ← pMesh ts
+      oneO (MeshVal.normalize negMaxFloat m name)
+  | "smoothnormals" => do let (m, _) ← pMesh ts; oneO m.smoothNormals
+  | "flatnormals" => do let (m, _) ← pMesh ts; oneO m.flatNormals
+  | "laplacian" => do
+      let (name, ts) ← pTok ts
+      let (iters, ts) ← pNat ts
+      let (f, ts) ← pFloat ts
+      let (m, _) ← pMesh ts
+      oneO (m.laplacian name iters f)
   | _ => none
 
 end Driver.MeshIO
